@@ -285,6 +285,33 @@ def gen_obs(rng, ds, h, nrows_hint):
     return ["obs", h, name, args]
 
 
+def gen_shared_rg_program(rng, ds):
+    """the SAME row group read through two handles whose derived state differs (a selection re-derives the partition label
+    lists from its own paths; the row-group structs are shared by the shallow metadata copy): selection then parent, parent then
+    selection, head then full read, iter_row_groups then full read - partition column VALUES are part of every answer"""
+    nrg = len(ds["sizes"]) * (3 if ds["part"] else 1)          # a partitioned write splits every row group by partition value
+    picks = sorted({rng.randrange(nrg), rng.randrange(nrg), nrg - 1, 1})
+    kind = rng.choice(["parent-then-selection", "selection-then-parent", "head-then-full", "iter-then-full"])
+    rd = lambda h: ["obs", h, "to_pandas", None]               # noqa
+    if kind == "parent-then-selection":
+        prog, h = [rd(0)], 1
+        for j in picks:
+            prog += [["derive", 0, "pick", j], rd(h), ["obs", h, "iter", None]]
+            h += 1
+        prog += [["derive", 0, "slice", [1, None, 2]], rd(h), ["derive", 0, "slice", [None, None, -1]], rd(h + 1)]
+    elif kind == "selection-then-parent":
+        prog, h = [], 1
+        for j in picks:
+            prog += [["derive", 0, "pick", j], rd(h)]
+            h += 1
+        prog += [["derive", 0, "slice", [2, None, None]], ["obs", h, "head", {"n": 2}], rd(0), ["obs", 0, "iter", None]] + [rd(k) for k in range(1, h + 1)]
+    elif kind == "head-then-full":
+        prog = [["obs", 0, "head", {"n": rng.choice([1, 2, 3])}], rd(0), ["obs", 0, "head", {"n": sum(ds["sizes"])}], ["derive", 0, "pickle", None], rd(1)]
+    else:
+        prog = [["obs", 0, "iter", None], rd(0), ["derive", 0, "pick", picks[-1]], rd(1), ["obs", 0, "iter", {"columns": ["id", "p"] if ds["part"] else ["id"]}]]
+    return prog
+
+
 def gen_program(rng, ds, nsteps=None, aim=None):
     """aim = (operation name, attribute) of an inventory offender: the program starts with an observer that fills the
     attribute, applies the operation, and asks again"""
@@ -749,6 +776,8 @@ def stream(ctx, nds, nprog, register_obligations=True, stream_name="handle-progr
     for i in range(nds):
         ds = gen_dataset(rng, corners[i] if i < len(corners) else None)
         progs = [gen_program(rng, ds) for _ in range(nprog)]
+        if ds["part"] or i % 3 == 0:
+            progs += [gen_shared_rg_program(rng, ds) for _ in range(2)]
         jobs.append({"ds": ds, "progs": progs, "inventory": inv, "aimed": False})
     # programs aimed at the (operation, attribute) pairs the regenerated inventory does not clear: fill the attribute, apply the
     # operation, ask again - on several datasets of both schemes
